@@ -2,6 +2,7 @@ package checks
 
 import (
 	"fmt"
+	"os"
 	"strconv"
 	"strings"
 	"sync"
@@ -77,6 +78,10 @@ func runC14(r *vc.Run, replay string) {
 	r.Rule = "cases = one per (scenario, caller): N in {2,8,64,512} concurrent SendSyncRequest callers under reply scripts {reverse, random permutation, sequential duplicates, back-to-back duplicates, drops (20 s timeout), unsolicited responses for unknown ids, phase-two requests with ids colliding with in-flight client ids, replies held across several heart-beats, reply after the caller's timeout (thorough), connection reset with requests pending}; each reply carries '<name>#<frame id>' so the response a caller got identifies the request it answers; after each scenario: pending futures, goroutines parked in response delivery, and a fresh request; distinct_nontrivial = distinct (script, N class, caller outcome) among callers whose request reached the TC"
 	r.Assumptions = []string{"the client child is built with -race; data-race reports are owned by C20 and only counted here",
 		"quiescence is logical: all callers returned and a final round trip on the same session completed"}
+	if os.Getenv("VERIF_C14_ONLY") == "storm" {
+		c14Storm(r)
+		return
+	}
 	w, err := world.New(r)
 	if err != nil {
 		r.Errorf("world: %v", err)
@@ -89,6 +94,11 @@ func runC14(r *vc.Run, replay string) {
 		return
 	}
 	defer ch.Kill()
+	stormDone := make(chan struct{})
+	go func() {
+		defer close(stormDone)
+		c14Storm(r)
+	}()
 	ctl := &c14Ctl{held: map[string][]*faketc.Req{}, byName: map[string]uint32{}, active: map[string]*c14Scenario{}}
 	ctl.cond = sync.NewCond(&ctl.mu)
 	w.TC.AddRule(&faketc.Rule{Name: "c14", Match: func(q *faketc.Req) bool {
@@ -173,6 +183,7 @@ func runC14(r *vc.Run, replay string) {
 		c14Run(r, w, ch, ctl, rst, rnd)
 		c14Quiesce(r, ch, ctl, "after-rst", true)
 	}
+	<-stormDone
 	if txt, inSeata, found := ch.PanicInfo(); found {
 		if inSeata {
 			r.Violate(&vc.Violation{Clause: "client-crash", Shape: "c14", Detail: "client process died from a panic inside seata-go: " + clipStr(txt, 1500)})
@@ -417,4 +428,93 @@ func clipI32(x []int32, n int) []int32 {
 		return x[:n]
 	}
 	return x
+}
+
+// c14Storm: schedule perturbation. A second client child restricted to one OS thread for Go code (GOMAXPROCS=1, race
+// detector on) fires waves of concurrent requests that the TC answers immediately, so that replies race with the
+// senders' own bookkeeping. Every caller must still receive its own response.
+func c14Storm(r *vc.Run) {
+	w, err := world.New(r)
+	if err != nil {
+		r.Errorf("world: %v", err)
+		return
+	}
+	defer w.Close()
+	env := []string{"GORACE=halt_on_error=0", "GOMAXPROCS=1", "VERIF_QUIET=1"}
+	// strace as a delay injector at an existing suspension point: the return of every write(2) is held back 1.5 ms
+	// after the bytes left, so the coordinator's reply can be processed before the sending goroutine continues
+	ch, err := w.StartClient("c14-storm", true, world.InitArg{}, append(append([]string{}, env...), "VERIF_WRAP=strace -f -qq -o /dev/null -e trace=write -e inject=write:delay_exit=1500"))
+	r.Extra["storm_write_delay_injection"] = "strace delay_exit=1500us on write(2)"
+	if err != nil {
+		r.Extra["storm_write_delay_injection"] = "unavailable (" + clipStr(err.Error(), 120) + "); storm ran without injected delays"
+		ch, err = w.StartClient("c14-storm", true, world.InitArg{}, env)
+		if err != nil {
+			r.Errorf("%v", err)
+			return
+		}
+	}
+	defer ch.Kill()
+	var mu sync.Mutex
+	ids := map[string]uint32{}
+	w.TC.AddRule(&faketc.Rule{Name: "c14-storm", Match: func(q *faketc.Req) bool {
+		return q.Msg.Type == wire.TGlobalBegin && strings.HasPrefix(q.TxName, "c14storm-")
+	}, Do: func(q *faketc.Req) bool {
+		mu.Lock()
+		ids[q.TxName] = q.Frame.ID
+		mu.Unlock()
+		q.S.Reply(q.Frame.ID, c14Reply(q))
+		return true
+	}})
+	waves, per := 6, 400
+	if r.Tier == "thorough" {
+		waves = 30
+	}
+	for wv := 0; wv < waves; wv++ {
+		var names []string
+		for i := 0; i < per; i++ {
+			names = append(names, fmt.Sprintf("c14storm-%02d/%04d", wv, i))
+		}
+		var calls []c14Call
+		done := make(chan error, 1)
+		go func() { done <- ch.Call("rpc_burst", map[string]interface{}{"names": names}, &calls) }()
+		select {
+		case err := <-done:
+			if err != nil {
+				r.Inconc("storm wave: " + err.Error())
+				return
+			}
+			if os.Getenv("VERIF_VERBOSE") != "" {
+				fmt.Printf("  storm wave %d done at %.1fs\n", wv, time.Since(r.Start).Seconds())
+			}
+		case <-time.After(120 * time.Second):
+			r.Violate(&vc.Violation{Clause: "caller-blocked", Shape: "storm", Features: map[string]string{"script": "storm"}, Detail: "storm wave did not return within 120 s"})
+			return
+		}
+		for _, c := range calls {
+			mu.Lock()
+			id, reached := ids[c.Name]
+			mu.Unlock()
+			outcome := "own-response"
+			if c.Err != "" {
+				outcome = "error"
+			}
+			shape := "storm|n>64|" + outcome
+			if reached {
+				r.Case(shape, map[string]interface{}{"scenario": "storm", "caller": c, "frame_id": id})
+			} else {
+				r.Case("", nil)
+			}
+			feat := map[string]string{"script": "storm", "n": "n>64"}
+			if c.Panic != "" {
+				r.Violate(&vc.Violation{Clause: "caller-panic", Shape: shape, Features: feat, Detail: "SendSyncRequest panicked: " + clipStr(c.Panic, 300), Case: c})
+				continue
+			}
+			want := fmt.Sprintf("%s#%d", c.Name, id)
+			if c.Err != "" && reached {
+				r.Violate(&vc.Violation{Clause: "lost-response", Shape: shape, Features: feat, Detail: fmt.Sprintf("caller %s got error %q after %d ms although the coordinator answered its request at once", c.Name, clipStr(c.Err, 160), c.Ms), Case: c})
+			} else if c.Err == "" && c.Xid != want {
+				r.Violate(&vc.Violation{Clause: "foreign-response", Shape: shape, Features: feat, Detail: fmt.Sprintf("caller %s received %q, its own response is %q", c.Name, c.Xid, want), Case: c})
+			}
+		}
+	}
 }
